@@ -378,7 +378,76 @@ def _is_print_if(s):
         all(isinstance(b, ast.Expr) and isinstance(b.value, ast.Call) and ast.unparse(b.value.func) == 'print' for b in s.body)
 
 
-TVAL = 'tval = np.linalg.norm(r, axis=0) / np.linalg.norm(b, axis=0)'
+# the convergence measure (after fix F34): per column |r| / (|b| if |b| != 0 else 1); bnorm is computed once
+BNORM = 'bnorm = np.linalg.norm(b, axis=0)'
+TVAL = 'tval = np.linalg.norm(r, axis=0) / bnorm'
+
+
+def _num(n):
+    """numeric constant -> exact Fraction"""
+    from fractions import Fraction
+    if isinstance(n, ast.UnaryOp) and isinstance(n.op, ast.USub):
+        v = _num(n.operand)
+        return None if v is None else -v
+    if isinstance(n, ast.Constant) and type(n.value) in (int, float):
+        return Fraction(n.value)
+    return None
+
+
+def _qlit(f):
+    return f'({f.numerator}#{f.denominator})' if f.numerator >= 0 else f'(-{-f.numerator}#{f.denominator})'
+
+
+def parse_bnorm_mask(st):
+    """`bnorm[bnorm == c0] = c1`  ->  (negated?, c0, c1)"""
+    if not (isinstance(st, ast.Assign) and len(st.targets) == 1 and isinstance(st.targets[0], ast.Subscript)
+            and ast.unparse(st.targets[0].value) == 'bnorm' and isinstance(st.targets[0].slice, ast.Compare)):
+        raise Unsupported('T-alg: CG.solve: expected masked assignment to bnorm, got `' + ast.unparse(st)[:100] + '`')
+    c = st.targets[0].slice
+    if not (ast.unparse(c.left) == 'bnorm' and len(c.ops) == 1 and isinstance(c.ops[0], (ast.Eq, ast.NotEq))):
+        raise Unsupported('T-alg: CG.solve: mask of bnorm: ' + ast.unparse(c)[:100])
+    c0, c1 = _num(c.comparators[0]), _num(st.value)
+    if c0 is None or c1 is None:
+        raise Unsupported('T-alg: CG.solve: constants of the bnorm mask: ' + ast.unparse(st)[:100])
+    return isinstance(c.ops[0], ast.NotEq), c0, c1
+
+
+def cg_exit_statements(repo):
+    """the statements of CG.solve that define the convergence measure, checked for position and form"""
+    tree, _ = parse_file(os.path.join(repo, 'pymoto/solvers/iterative.py'))
+    fn = find_func(find_class(tree, 'CG'), 'solve')
+    body = [s for s in fn.body if not (isinstance(s, ast.Expr) and isinstance(s.value, ast.Constant))]
+    for k, st in enumerate(body):
+        if isinstance(st, ast.Assign) and ast.unparse(st.targets[0]) == 'r':
+            break
+    else:
+        raise Unsupported('T-alg: CG.solve: initial residual not found')
+    if ast.unparse(body[k + 1]) != norm(BNORM) or ast.unparse(body[k + 3]) != norm(TVAL):
+        raise Unsupported('T-alg: CG.solve: bnorm / tval after the initial residual')
+    # bnorm and tval are written nowhere else except the one tval update inside the loop (checked by gen_cg)
+    nb = sum(1 for s in ast.walk(fn) if isinstance(s, (ast.Assign, ast.AugAssign))
+             and 'bnorm' in [ast.unparse(t).split('[')[0] for t in (s.targets if isinstance(s, ast.Assign) else [s.target])])
+    if nb != 2:
+        raise Unsupported('T-alg: CG.solve: bnorm is assigned %d times' % nb)
+    return parse_bnorm_mask(body[k + 2])
+
+
+def gen_cg_exit(repo):
+    neg, c0, c1 = cg_exit_statements(repo)
+    gen_cg(repo)     # positions of the tval updates and of the tests `tval.max() <= self.tol` / `> self.tol`
+    test = f'Qeq_bool v {_qlit(c0)}'
+    if neg:
+        test = f'negb ({test})'
+    return '\n'.join([
+        '(* GENERATED by tools/gen_C05.py from pymoto/solvers/iterative.py (CG.solve: convergence measure) -- do not edit *)',
+        'From Coq Require Import QArith List Bool.', 'Import ListNotations.', 'Open Scope Q_scope.', '',
+        '(* bnorm = np.linalg.norm(b, axis=0); ' + 'masked assignment *)',
+        f'Definition gen_cg_bnorm (nb : list Q) : list Q := map (fun v => if {test} then {_qlit(c1)} else v) nb.',
+        '(* tval = np.linalg.norm(r, axis=0) / bnorm *)',
+        'Definition gen_cg_tval (nr bn : list Q) : list Q := map (fun p => fst p / snd p) (combine nr bn).',
+        '(* tval.max() <= self.tol *)',
+        'Definition gen_cg_exit (tol : Q) (nr nb : list Q) : bool :=',
+        '  forallb (fun t => Qle_bool t tol) (gen_cg_tval nr (gen_cg_bnorm nb)).', ''])
 
 
 def gen_cg(repo):
@@ -424,9 +493,12 @@ def gen_cg(repo):
         raise Unsupported('T-alg: CG.solve: initial residual')
     em.block([st])
     out.append(f'Definition gen_cg_r0 {CG_PARAMS} (x : M) : M :=\n  {em.env["r"]}.\n')
-    if ast.unparse(body[k]) != norm(TVAL):
+    if ast.unparse(body[k]) != norm(BNORM):
+        raise Unsupported('T-alg: CG.solve: bnorm after initial residual')
+    parse_bnorm_mask(body[k + 1])
+    if ast.unparse(body[k + 2]) != norm(TVAL):
         raise Unsupported('T-alg: CG.solve: tval after initial residual')
-    k += 1
+    k += 3
     while _is_print_if(body[k]):
         k += 1
     early = body[k]; k += 1
@@ -786,3 +858,4 @@ if __name__ == '__main__':
     print(gen_cg(repo))
     print(gen_auto(repo))
     print(gen_checks(repo))
+    print(gen_cg_exit(repo))
